@@ -172,6 +172,22 @@ func c03Labels(d ttmlDoc, r *ttmlRendering) (bool, []string) {
 func TestC03(t *testing.T) {
 	runWitnesses(t, "C03")
 	cliConvertCases(t, "C03", "ttml")
+	// Write direction only: a carriage return inside a run's text, next to markup characters or not (an XML-legal
+	// character like any other: written as a character reference, it comes back as it went; the generated models keep
+	// line terminators out of texts because a *document* cannot say them, a list can).
+	sub(t, "carriage-return-in-text", func(t *testing.T) {
+		if cfgShard != 0 {
+			return
+		}
+		for i, txt := range []string{"a<b\rc", "x & y\rz", "plain\rtext", "tail\r", "<&>\r<&>", "two\r\rreturns"} {
+			d := ttmlDoc{Cues: []ttmlCue{{Begin: msClock(1000), End: msClock(2000), Lines: [][]ttmlRun{{{Text: txt, Span: true}}}},
+				{Begin: msClock(3000), End: msClock(4000), Lines: [][]ttmlRun{{{Text: "before", Span: true}}, {{Text: txt, Span: true}, {Text: "after", Span: true}}}}}}
+			for _, indent := range []string{"default", "", "\t"} {
+				ev.CaseH(true, mix(strHash("cr"+indent), uint64(i)), "write", "carriage-return-inside-a-run")
+				verdict(t, "C03", "c03write", c03WriteCase{Doc: d, Indent: indent}, checkC03Write)
+			}
+		}
+	})
 	// Exhaustive over the time-expression syntaxes: every frame number below the rate for 5 rates x an h:m:s pool,
 	// every 1-3 digit fraction (1110 values) in clock time and in the h/m/s/ms offset forms.
 	sub(t, "timeforms", func(t *testing.T) {
